@@ -11,7 +11,10 @@
 (* scanner replaced (doc comment of nextAnsiEscapeSequence):                                                        *)
 (*    ESC [[()] [0-9;:?]* [a-zA-Z@]  |  ESC ] [0-9]+ [;:] [[:print:]]+ (ESC \ | BEL)  |  ESC .  |  [SO SI]  |  . BS  *)
 (* written as scanner automata that take one step per symbol.                                                        *)
-(* Part B (documented): an ECMA-48 SGR interpreter + OSC 8 hyperlink state, independent of the code's parser.        *)
+(* Part B (documented): an ECMA-48 SGR interpreter (parameters separated by ';', sub-parameters by ':' as in ITU     *)
+(* T.416 / xterm for the colours 38, 48 and - de facto - 58) + OSC 8 hyperlink state, independent of the code's parser. *)
+(* Part C: the lines as items of the list, without and with --with-nth N.. : the colour state is carried from the end  *)
+(* of what is shown for one line to the start of the next, whichever way the items are built.                          *)
 (* CODE-DERIVED corners are marked; named deviations (findings) are switched on by labels in the `dv` argument:      *)
 (*    "Osc8BareEsc"     accepted corner: ESC ] 8 ; ; ESC (no backslash) is matched as one sequence (ansiState.ToString *)
 (*                      emits it; DESIGN Appendix D)                                                                  *)
@@ -19,6 +22,12 @@
 (*    "SkipEmptyParam"  deviation: an empty SGR parameter next to non-empty ones is skipped instead of meaning 0      *)
 (*    "OpenSpanAtEol"   deviation: when a line ends with a sequence that leaves the state as it was, the characters   *)
 (*                      written since the last change of state lose their colour (the open span is never extended)    *)
+(*    "MixedSep"        deviation: inside one SGR sequence ';' is looked for first and ':' only when no ';' is left,   *)
+(*                      so a colon group followed by further parameters (38:5:100;1) is not read as numbers and lost  *)
+(*    "Sgr58"           deviation: 58 (underline colour) is not known as the introducer of a colour, its arguments     *)
+(*                      (5;n / 2;r;g;b) are read as stand-alone codes                                                  *)
+(*    "CarryLag"        deviation (Part C, items built under --with-nth): a line of two or more fields starts in the   *)
+(*                      state the line BEFORE the previous one ended in                                                *)
 EXTENDS Integers, Sequences, FiniteSets, TLC
 
 ESC == "ESC"   BS == "BS"   SO == "SO"   SI == "SI"   BEL == "BEL"   LF == "LF"   BSL == "BSL"
@@ -36,12 +45,17 @@ DigitVal(c) == CASE c = "0" -> 0 [] c = "1" -> 1 [] c = "2" -> 2 [] c = "3" -> 3
                  [] c = "5" -> 5 [] c = "6" -> 6 [] c = "7" -> 7 [] c = "8" -> 8 [] c = "9" -> 9
 
 Corners == {"Osc8BareEsc"}
-(* the deviations and their combinations, singles first (a record is attributed to the first set that explains it) *)
-DevSets == << {"StAsCsi"}, {"SkipEmptyParam"}, {"OpenSpanAtEol"}, {"StAsCsi", "OpenSpanAtEol"},
-              {"SkipEmptyParam", "OpenSpanAtEol"}, {"StAsCsi", "SkipEmptyParam"},
-              {"StAsCsi", "SkipEmptyParam", "OpenSpanAtEol"} >>
-DevNames == << "StAsCsi", "SkipEmptyParam", "OpenSpanAtEol", "StAsCsi+OpenSpanAtEol", "SkipEmptyParam+OpenSpanAtEol",
-               "StAsCsi+SkipEmptyParam", "StAsCsi+SkipEmptyParam+OpenSpanAtEol" >>
+(* the deviations of Parts A/B and their combinations, fewest members first (a record is attributed to the first   *)
+(* set that explains it); a combination is named by its members in the order of DevAll, joined with "+"             *)
+DevAll == <<"StAsCsi", "SkipEmptyParam", "OpenSpanAtEol", "MixedSep", "Sgr58">>
+Pow2(n) == CASE n = 0 -> 1 [] n = 1 -> 2 [] n = 2 -> 4 [] n = 3 -> 8 [] n = 4 -> 16 [] n = 5 -> 32
+Members(k) == SelectSeq([i \in 1..Len(DevAll) |-> i], LAMBDA i : (k \div Pow2(i - 1)) % 2 = 1)
+RECURSIVE JoinPlus(_)
+JoinPlus(ix) == IF Len(ix) = 1 THEN DevAll[ix[1]] ELSE DevAll[ix[1]] \o "+" \o JoinPlus(Tail(ix))
+DevOrder == SortSeq([k \in 1..(Pow2(Len(DevAll)) - 1) |-> k],
+                    LAMBDA a, b : Len(Members(a)) < Len(Members(b)) \/ (Len(Members(a)) = Len(Members(b)) /\ a < b))
+DevSets  == [j \in 1..Len(DevOrder) |-> {DevAll[i] : i \in {Members(DevOrder[j])[x] : x \in 1..Len(Members(DevOrder[j]))}}]
+DevNames == [j \in 1..Len(DevOrder) |-> JoinPlus(Members(DevOrder[j]))]
 
 -------------------------------------------------------------------------------
 (* Part A - the scanner.  Each alternative of the regular expression is an automaton; Delta is its transition      *)
@@ -124,32 +138,90 @@ Sgr1(st, n) ==
     [] n \in 90..97 -> [st EXCEPT !.fg = <<n - 90 + 8>>]
     [] n \in 100..107 -> [st EXCEPT !.bg = <<n - 100 + 8>>]
     [] OTHER -> st
-(* renditions with no counterpart in fzf's attribute model (conceal/reveal, primary font, overline): projected away *)
-Unrepresented == {8, 28, 10, 53, 55}
+(* Renditions with no counterpart in fzf's attribute model, projected away.  ECMA-48 8.3.117: 8/28 concealed /     *)
+(* revealed, 10-20 fonts, 26/50 proportional spacing, 51-55 framed, encircled, overlined and their ends, 60-65        *)
+(* ideogram markings; de-facto (kitty, VTE, mintty, iTerm2; "reserved" in ECMA-48): 59 default underline colour,      *)
+(* 73-75 superscript / subscript.  Each is ONE parameter without arguments: it changes nothing that fzf shows and the *)
+(* parameters after it keep their meaning.                                                                            *)
+(* Not specified (outside the well-formed grammar, terminals disagree): 6 rapid blink, 21 (doubly underlined in       *)
+(* ECMA-48 and xterm, bold off on others), 56/57, 66-72, 76-89, 98, 99, 108-...                                        *)
+Unrepresented == {8, 28, 26, 50, 59} \cup (10..20) \cup (51..55) \cup (60..65) \cup (73..75)
 KnownCodes == {0, 1, 2, 3, 4, 5, 7, 9, 22, 23, 24, 25, 27, 29, 39, 49} \cup (30..37) \cup (40..47) \cup (90..97) \cup (100..107)
+(* the parameters that introduce a colour: ITU T.416 / xterm 38 foreground, 48 background; de-facto 58 underline      *)
+(* colour, written exactly like the other two (58;5;n  58;2;r;g;b  58:5:n  58:2:r:g:b  58:2::r:g:b)                    *)
+ColourOpen == {38, 48, 58}
 
 Byte(n) == n \in 0..255
-SetCol(st, which, col) == IF which = 38 THEN [st EXCEPT !.fg = col] ELSE [st EXCEPT !.bg = col]
+(* the colour of underlines has no counterpart in fzf's model: setting it changes nothing that fzf shows *)
+SetCol(st, which, col) == CASE which = 38 -> [st EXCEPT !.fg = col] [] which = 48 -> [st EXCEPT !.bg = col] [] which = 58 -> st
 From(ps, i) == SubSeq(ps, i, Len(ps))
 
-(* a parameter list is a sequence of numbers, -1 standing for an empty parameter *)
-RECURSIVE WfParams(_)
-WfParams(ps) ==
-  IF ps = <<>> THEN TRUE
-  ELSE IF ps[1] \in {38, 48}
-       THEN \/ Len(ps) >= 3 /\ ps[2] = 5 /\ Byte(ps[3]) /\ WfParams(From(ps, 4))
-            \/ Len(ps) >= 5 /\ ps[2] = 2 /\ Byte(ps[3]) /\ Byte(ps[4]) /\ Byte(ps[5]) /\ WfParams(From(ps, 6))
-       ELSE ps[1] \in KnownCodes \cup Unrepresented \cup {-1} /\ WfParams(Tail(ps))
+(* The parameter string of an SGR sequence (ECMA-48 5.4.2) is a list of parameters separated by ';', each of which   *)
+(* is a list of sub-parameters separated by ':'.  Here: a sequence of FIELDS, a field being the sequence of its       *)
+(* numbers, -1 standing for an empty (sub-)parameter.  <<31>> is an ordinary parameter, <<38, 5, 100>> a colon group.  *)
+
+(* the colon form carries one colour: 38:5:n, 38:2:r:g:b, 38:2::r:g:b (likewise 48, 58); the third form has the       *)
+(* (empty) colour-space identifier of T.416                                                                            *)
+ColonGroup(f) == IF Len(f) = 6 /\ f[2] = 2 /\ f[3] = -1 THEN <<f[1], 2, f[4], f[5], f[6]>> ELSE f
+WfColon(f) == /\ Len(f) \in {3, 5, 6} /\ f[1] \in ColourOpen
+              /\ LET g == ColonGroup(f) IN \/ Len(g) = 3 /\ g[2] = 5 /\ Byte(g[3])
+                                           \/ Len(g) = 5 /\ g[2] = 2 /\ Byte(g[3]) /\ Byte(g[4]) /\ Byte(g[5])
+GroupColour(g) == IF g[2] = 5 THEN <<g[3]>> ELSE <<g[3], g[4], g[5]>>
+Plain(f) == Len(f) = 1
+PlainByte(f) == Len(f) = 1 /\ Byte(f[1])
+
+(* well-formed: colon groups are complete by themselves and may stand anywhere among the other parameters; in the     *)
+(* legacy form 38/48/58 take their arguments from the following parameters, which then have no sub-parameters          *)
+RECURSIVE WfFields(_)
+WfFields(fs) ==
+  IF fs = <<>> THEN TRUE
+  ELSE IF ~Plain(fs[1]) THEN WfColon(fs[1]) /\ WfFields(Tail(fs))
+  ELSE IF fs[1][1] \in ColourOpen
+       THEN \/ Len(fs) >= 3 /\ fs[2] = <<5>> /\ PlainByte(fs[3]) /\ WfFields(From(fs, 4))
+            \/ Len(fs) >= 5 /\ fs[2] = <<2>> /\ PlainByte(fs[3]) /\ PlainByte(fs[4]) /\ PlainByte(fs[5]) /\ WfFields(From(fs, 6))
+       ELSE fs[1][1] \in KnownCodes \cup Unrepresented \cup {-1} /\ WfFields(Tail(fs))
 
 RECURSIVE SgrRun(_, _)
-SgrRun(st, ps) ==
-  IF ps = <<>> THEN st
-  ELSE IF ps[1] \in {38, 48}
-       THEN IF ps[2] = 5 THEN SgrRun(SetCol(st, ps[1], <<ps[3]>>), From(ps, 4))
-                         ELSE SgrRun(SetCol(st, ps[1], <<ps[3], ps[4], ps[5]>>), From(ps, 6))
-       ELSE SgrRun(Sgr1(st, IF ps[1] = -1 THEN 0 ELSE ps[1]), Tail(ps))      \* an empty parameter is the default, 0
-NonEmpty(ps) == LET f == SelectSeq(ps, LAMBDA n : n # -1) IN IF f = <<>> THEN <<0>> ELSE f
-Sgr(st, ps, dv) == SgrRun(st, IF "SkipEmptyParam" \in dv THEN NonEmpty(ps) ELSE ps)
+SgrRun(st, fs) ==
+  IF fs = <<>> THEN st
+  ELSE IF ~Plain(fs[1]) THEN LET g == ColonGroup(fs[1]) IN SgrRun(SetCol(st, g[1], GroupColour(g)), Tail(fs))
+  ELSE IF fs[1][1] \in ColourOpen
+       THEN IF fs[2] = <<5>> THEN SgrRun(SetCol(st, fs[1][1], <<fs[3][1]>>), From(fs, 4))
+                             ELSE SgrRun(SetCol(st, fs[1][1], <<fs[3][1], fs[4][1], fs[5][1]>>), From(fs, 6))
+       ELSE SgrRun(Sgr1(st, IF fs[1][1] = -1 THEN 0 ELSE fs[1][1]), Tail(fs))      \* an empty parameter is the default, 0
+
+(* ---- the deviations (CODE-DERIVED; they only serve to attribute a mismatch, never to accept one) ---- *)
+NonEmpty(fs) == LET f == SelectSeq(fs, LAMBDA x : x # <<-1>>) IN IF f = <<>> THEN <<<<0>>>> ELSE f
+(* MixedSep: a field with sub-parameters that is followed by another field is not a number and is passed over; the    *)
+(* sub-parameters of the last field are read one after the other like parameters (an empty one is passed over)         *)
+RECURSIVE AsParams(_)
+AsParams(ns) == IF ns = <<>> THEN <<>> ELSE (IF Head(ns) = -1 THEN <<>> ELSE <<<<Head(ns)>>>>) \o AsParams(Tail(ns))
+CodeSplit(fs) == LET n == Len(fs)
+                     front == SelectSeq(SubSeq(fs, 1, n - 1), Plain) IN
+                 IF Plain(fs[n]) THEN Append(front, fs[n]) ELSE front \o AsParams(fs[n])
+(* Sgr58: the automaton of interpretCode over the numbers of all fields (sub-parameters read like parameters, empty   *)
+(* ones passed over), in which only 38 and 48 introduce a colour.  q: 0 outside a colour, 1 after 38/48, 2 after      *)
+(* 38;5, 10/11/12 after 38;2 / r / g; a colour left incomplete at the end becomes the default colour                   *)
+RECURSIVE FlatAll(_)
+FlatAll(fs) == IF fs = <<>> THEN <<>>
+               ELSE (IF Plain(fs[1]) THEN fs[1] ELSE SelectSeq(fs[1], LAMBDA n : n # -1)) \o FlatAll(Tail(fs))
+RECURSIVE CodeRun(_, _, _, _, _)
+CodeRun(st, ps, q, w, col) ==
+  IF ps = <<>> THEN (IF q > 0 THEN SetCol(st, w, <<>>) ELSE st)
+  ELSE LET r == Tail(ps) IN
+       IF ps[1] = -1 /\ q > 0 THEN CodeRun(st, r, q, w, col)
+       ELSE LET m == IF ps[1] = -1 THEN 0 ELSE ps[1] IN
+            CASE q = 0  -> (IF m \in {38, 48} THEN CodeRun(st, r, 1, m, <<>>) ELSE CodeRun(Sgr1(st, m), r, 0, w, col))
+              [] q = 1  -> CodeRun(st, r, IF m = 2 THEN 10 ELSE IF m = 5 THEN 2 ELSE 0, w, col)
+              [] q = 2  -> CodeRun(SetCol(st, w, <<m>>), r, 0, w, col)
+              [] q = 10 -> CodeRun(st, r, 11, w, <<m>>)
+              [] q = 11 -> CodeRun(st, r, 12, w, Append(col, m))
+              [] q = 12 -> CodeRun(SetCol(st, w, Append(col, m)), r, 0, w, col)
+Sgr(st, fs, dv) == LET f1 == IF "SkipEmptyParam" \in dv THEN NonEmpty(fs) ELSE fs
+                       f2 == IF "MixedSep" \in dv THEN CodeSplit(f1) ELSE f1
+                       \* an empty last parameter is made an explicit 0 before the automaton runs
+                       f3 == IF f2[Len(f2)] = <<-1>> THEN [f2 EXCEPT ![Len(f2)] = <<0>>] ELSE f2 IN
+                   IF "Sgr58" \in dv THEN CodeRun(st, FlatAll(f3), 0, 38, <<>>) ELSE SgrRun(st, f2)
 
 (* ---- reading the parameters of ESC [ body m ---- *)
 RECURSIVE Split(_, _, _)
@@ -162,19 +234,12 @@ Num(ds) == IF ds = <<>> THEN -1 ELSE NumAcc(ds, 0)
 Has(s, c) == \E i \in 1..Len(s) : s[i] = c
 Nums(fields) == [i \in 1..Len(fields) |-> Num(fields[i])]
 
-(* the colon form carries one colour: 38:5:n, 38:2:r:g:b, 38:2::r:g:b (likewise 48) *)
-ColonGroup(f) == IF Len(f) = 6 /\ f[2] = 2 /\ f[3] = -1 THEN <<f[1], 2, f[4], f[5], f[6]>> ELSE f
-WfColon(f) == /\ Len(f) \in {3, 5, 6} /\ f[1] \in {38, 48}
-              /\ LET g == ColonGroup(f) IN /\ Len(g) = 3 => g[2] = 5
-                                           /\ Len(g) = 5 => g[2] = 2
-                                           /\ Len(g) \in {3, 5} /\ WfParams(g)
-(* <<well-formed, parameter list>> *)
+(* <<well-formed, fields>> *)
 SgrParams(body) ==
   IF Has(body, "?") THEN <<FALSE, <<>>>>
-  ELSE IF Has(body, ":")
-       THEN IF Has(body, ";") THEN <<FALSE, <<>>>>                  \* mixed forms: outside the well-formed grammar
-            ELSE LET f == Nums(Split(body, ":", <<>>)) IN IF WfColon(f) THEN <<TRUE, ColonGroup(f)>> ELSE <<FALSE, <<>>>>
-       ELSE LET ps == Nums(Split(body, ";", <<>>)) IN <<WfParams(ps), ps>>
+  ELSE LET parts == Split(body, ";", <<>>)
+           fs == [i \in 1..Len(parts) |-> Nums(Split(parts[i], ":", <<>>))] IN
+       <<WfFields(fs), fs>>
 
 (* ---- tokens ---- *)
 IsSgrTok(t) == Len(t) >= 3 /\ t[1] = ESC /\ t[2] = "[" /\ t[Len(t)] = "m"
@@ -263,6 +328,66 @@ LinesFrom(ls, i, carry, wf, dv) ==
        <<[text |-> c.text, wf |-> ok, attrs |-> IF ok THEN Attrs(c.runs) ELSE <<>>,
           final |-> IF ok THEN Whole(c.final) ELSE Whole(Default)]>> \o LinesFrom(ls, i + 1, c.final, ok, dv)
 Predict(ls, dv) == LinesFrom(ls, 1, Default, TRUE, dv)
+
+-------------------------------------------------------------------------------
+(* Part C - the lines of the input as ITEMS of the list: what every character of an item shows on the screen.        *)
+(* Without --with-nth an item is its line.  With --with-nth N.. an item is made of the fields N, N+1, ... of its line  *)
+(* (documented: fields are AWK-style by default - a field is a run of non-blanks with the blanks that follow it, the   *)
+(* blanks in front of the first field belong to no field).  Blanks at the end of an item are not observed.              *)
+(* The rule for both ways of building items (C11: "state carried over from the previous line"): the input is ONE        *)
+(* stream for the colour state -                                                                                        *)
+(*   * within a line, every field starts in the state the field before it ended in, shown or not;                       *)
+(*   * the first field of a line starts in the state in which the text shown for the previous line ended                *)
+(*     (for N.. with at least N fields that is the end of the previous line).                                           *)
+(* CODE-DERIVED: fields are cut on the raw line, before escape sequences are removed (C10's subject, FzfItems); the     *)
+(* generators of the check only put sequences next to a non-blank, where this cannot be seen.                           *)
+(* What the screen can show of a state (hyperlinks and the line background are not observed there):                     *)
+Blank == {" "}
+Screen(st) == [fg |-> st.fg, bg |-> st.bg, at |-> AttrSeq(st.at)]
+RECURSIVE RunStopNot(_, _, _)
+RunStopNot(s, i, S) == IF i <= Len(s) /\ s[i] \notin S THEN RunStopNot(s, i + 1, S) ELSE i
+RECURSIVE AwkFrom(_, _)
+AwkFrom(s, p) == IF p > Len(s) THEN <<>>
+                 ELSE LET e == RunStop(s, RunStopNot(s, p, Blank), Blank) IN <<SubSeq(s, p, e - 1)>> \o AwkFrom(s, e)
+AwkFields(s) == AwkFrom(s, RunStop(s, 1, Blank))
+
+(* fields i.. of a line walked from state st; those from index `from` on are shown *)
+RECURSIVE FieldWalk(_, _, _, _, _, _)
+FieldWalk(fl, i, from, st, dv, acc) ==
+  IF i > Len(fl) THEN acc
+  ELSE LET c == ColourD(fl[i], st, dv) IN
+       FieldWalk(fl, i + 1, from, c.final, dv,
+                 IF i >= from THEN [text |-> acc.text \o c.text, runs |-> acc.runs \o c.runs, wf |-> acc.wf /\ c.wf, final |-> c.final]
+                 ELSE [acc EXCEPT !.wf = @ /\ c.wf])
+(* per-character rendition on the screen, run-length encoded, maximal runs; blanks at the end are not observed *)
+RECURSIVE ScreenRuns(_, _, _)
+ScreenRuns(runs, i, out) ==
+  IF i > Len(runs) THEN out
+  ELSE LET v == Screen(runs[i].st) IN
+       IF out # <<>> /\ out[Len(out)][2] = v THEN ScreenRuns(runs, i + 1, [out EXCEPT ![Len(out)] = <<@[1] + runs[i].k, v>>])
+       ELSE ScreenRuns(runs, i + 1, Append(out, <<runs[i].k, v>>))
+RECURSIVE CutRuns(_, _)
+CutRuns(runs, n) == IF n = 0 \/ runs = <<>> THEN <<>>                 \* the first n characters
+                    ELSE IF runs[1].k >= n THEN <<[k |-> n, st |-> runs[1].st]>>
+                    ELSE <<runs[1]>> \o CutRuns(Tail(runs), n - runs[1].k)
+RECURSIVE TrimLen(_)
+TrimLen(x) == IF x # <<>> /\ x[Len(x)] \in Blank THEN TrimLen(SubSeq(x, 1, Len(x) - 1)) ELSE Len(x)
+
+(* from = 0: no --with-nth; from >= 1: --with-nth from..  (1.. and .. show every field)                                *)
+(* carry: state at the end of the text shown for the previous line; lagged: the same one line earlier                  *)
+RECURSIVE ItemsFrom(_, _, _, _, _, _, _)
+ItemsFrom(ls, i, from, carry, lagged, wf, dv) ==
+  IF i > Len(ls) THEN <<>>
+  ELSE LET fl == IF from = 0 THEN <<ls[i]>> ELSE AwkFields(ls[i])
+           start == IF "CarryLag" \in dv /\ from > 0 /\ Len(fl) > 1 THEN lagged ELSE carry   \* CODE-DERIVED deviation
+           it == FieldWalk(fl, 1, IF from = 0 THEN 1 ELSE from, start, dv \ {"CarryLag"},
+                           [text |-> <<>>, runs |-> <<>>, wf |-> TRUE, final |-> carry])
+           n == TrimLen(it.text)
+           ok == wf /\ it.wf IN
+       <<[text |-> SubSeq(it.text, 1, n), wf |-> ok,
+          attrs |-> IF ok THEN ScreenRuns(CutRuns(it.runs, n), 1, <<>>) ELSE <<>>]>>
+       \o ItemsFrom(ls, i + 1, from, it.final, carry, ok, dv)
+Items(ls, from, dv) == ItemsFrom(ls, 1, from, Default, Default, TRUE, dv)
 
 -------------------------------------------------------------------------------
 (* colour spans: the runs written in a non-default state; 0-based half-open [b, e) *)
